@@ -226,11 +226,37 @@ func c04(r *core.Run) {
 			}
 			// the call that resolves msg.Referral into the payout recipient
 			resolvers := map[ssa.CallInstruction]bool{}
-			for _, a := range p.ProvAt(s.bo.Args[1], "", s.bo.Instr) {
-				if a.Kind == "ext" && a.Call != nil {
-					resolvers[a.Call] = true
+			var back func(v ssa.Value, d int)
+			back = func(v ssa.Value, d int) {
+				if d > 6 {
+					return
+				}
+				switch x := v.(type) {
+				case *ssa.Extract:
+					if c, ok := x.Tuple.(*ssa.Call); ok {
+						resolvers[c] = true
+					}
+				case *ssa.Call:
+					resolvers[x] = true
+				case *ssa.Phi:
+					for _, e := range x.Edges {
+						back(e, d+1)
+					}
+				case *ssa.Convert:
+					back(x.X, d+1)
+				case *ssa.ChangeType:
+					back(x.X, d+1)
+				case *ssa.UnOp:
+					if al, ok := x.X.(*ssa.Alloc); ok {
+						for _, ref := range *al.Referrers() {
+							if st, ok := ref.(*ssa.Store); ok && st.Addr == al {
+								back(st.Val, d+1)
+							}
+						}
+					}
 				}
 			}
+			back(s.bo.Args[1], 0)
 			resolved := errNilGuard(p, func(c *ssa.Call) bool {
 				if !resolvers[c] {
 					return false
